@@ -1046,7 +1046,16 @@ func (s *Store[K, V]) insertSimple(entry *Entry[K, V]) {
 }
 
 func (s *Store[K, V]) processSecondary() {
-	for item := range s.secondaryCacheBuf {
+	for {
+		var item SecondaryCacheItem[K, V]
+		select {
+		case <-s.ctx.Done():
+			if verifOn {
+				verifAt(VpSecExit, s, nil, nil)
+			}
+			return
+		case item = <-s.secondaryCacheBuf:
+		}
 		if verifOn {
 			verifAt(VpSecTake, s, item.entry, nil)
 		}
@@ -1090,9 +1099,6 @@ func (s *Store[K, V]) processSecondary() {
 		if verifOn {
 			verifAt(VpSecDone, s, item.entry, nil, 1)
 		}
-	}
-	if verifOn {
-		verifAt(VpSecExit, s, nil, nil)
 	}
 }
 
